@@ -71,7 +71,7 @@ PLAN = {
     't16n': [('ALL8', 0x00FF, 0x0000, 1), ('SYMRN', 0x000F, 0x00A0, None)],
     # PUSH / POP, 16-bit list (A1)
     'pp16': [('LO8', 0x00FF, 0x4000, None), ('LO8P', 0x00FF, 0x8000, None), ('HI8', 0xFF00, 0x0001, None),
-             ('ALL', 0x0000, 0xFFFF, None), ('ALL13', 0x0000, 0xDFFF, None)],
+             ('ALL13', 0x0000, 0xDFFF, None)],  # SP in a multi-register list: UNKNOWN values (excluded)
     # PUSH T2 / POP T2
     'pp32': [('LO8', 0x00FF, 0x4000, None), ('LO8P', 0x00FF, 0x8000, None), ('HI', 0xDF00, 0x0001, None),
              ('ALLP', 0x0000, 0x9FFF, None), ('ALLM', 0x0000, 0x5FFF, None)],
@@ -228,19 +228,31 @@ def store_words(S, regs, start, values, ok):
     kb = known_bits(regs)
     rng = below_ranges(kb)
     tmin, tmax = rng[16]
-    S0 = S.copy()
-    legacy_unal = z3.And(S._legacy_align(), bits(start, 1, 0) != 0) if S.arch < 7 else None
-    for j in range(min(tmax, 16)):
-        a = start + 4 * j
-        cands = [i for i in range(16) if kb[i] != 0 and rng[i][0] <= j <= rng[i][1]]
-        v = values[cands[-1]]
-        for i in reversed(cands[:-1]):
-            v = z3.If(z3.And(bit(regs, i), below[i] == j), values[i], v)
-        written = ok if j < tmin else z3.And(ok, z3.UGT(total, j))
-        new = z3.If(written, v, rd_word(S0, a, start))
-        # MemA write: at a when a is word aligned, at Align(a,4) in the ARMv6 legacy alignment model
-        wa = a if legacy_unal is None else z3.If(legacy_unal, S._align(a, 4), a)
-        S._write_bytes(wa, 4, S._endian(new, 4))
+    mem0 = S.mem
+
+    def build(down):
+        """memory after the transfer with every word written at Align(a,4) (down) / at a"""
+        S.mem = mem0
+        for j in range(min(tmax, 16)):
+            a = start + 4 * j
+            wa = S._align(a, 4) if down else a
+            cands = [i for i in range(16) if kb[i] != 0 and rng[i][0] <= j <= rng[i][1]]
+            v = values[cands[-1]]
+            for i in reversed(cands[:-1]):
+                v = z3.If(z3.And(bit(regs, i), below[i] == j), values[i], v)
+            written = ok if j < tmin else z3.And(ok, z3.UGT(total, j))
+            old = S._endian(S._read_bytes(wa, 4), 4)
+            S._write_bytes(wa, 4, S._endian(z3.If(written, v, old), 4))
+        return S.mem
+    # MemA write: at a when a is word aligned (otherwise it faults), except in the ARMv6 legacy alignment model
+    # (SCTLR.U == 0 && SCTLR.A == 0) where an unaligned a is forced to Align(a,4).  The case split is made once,
+    # on the whole memory, so that each case has stores at constant offsets from one base
+    direct = build(False)
+    legacy_unal = z3.simplify(z3.And(S._legacy_align(), bits(start, 1, 0) != 0)) if S.arch < 7 else z3.BoolVal(False)
+    if z3.is_false(legacy_unal):
+        S.mem = direct
+    else:
+        S.mem = z3.If(legacy_unal, build(True), direct)
 
 
 def pc_load(S, guard, value, kind='load'):
